@@ -1675,3 +1675,68 @@ Proof.
   destruct (render_first t) as (c1 & back & E1 & _). rewrite E1. rewrite <- E1.
   rewrite interface_def_render by exact Hok. reflexivity.
 Qed.
+
+(* ------------------------------------------------------------------ the hypotheses of C14 *)
+
+Lemma forallb_and {X} (f g : X -> bool) l :
+  forallb f l = true -> forallb g l = true -> forallb (fun x => f x && g x) l = true.
+Proof.
+  intros Hf Hg. apply forallb_forall. intros x Hx. rewrite forallb_forall in Hf, Hg.
+  now rewrite Hf, Hg.
+Qed.
+
+Lemma wf_custom_ok c :
+  custom_names_ok c = true -> custom_wf c = true ->
+  (match c with CEnum _ ((_ :: _ :: _) as vs) _ => existsb has_comments vs | _ => false end) = false ->
+  custom_ok c = true.
+Proof.
+  destruct c as [n fs cs | n vs cs]; cbn [custom_names_ok custom_wf custom_ok]; intros Hn Hw Hk.
+  - apply andb_true_iff in Hn. destruct Hn as [Hn1 Hn2]. apply andb_true_iff in Hw. destruct Hw as [Hw1 Hw2].
+    rewrite Hn1, Hw1. cbn [andb]. unfold dfield_ok. now apply forallb_and.
+  - apply andb_true_iff in Hn. destruct Hn as [Hn1 Hn2].
+    apply andb_true_iff in Hw. destruct Hw as [Hw Hw3]. apply andb_true_iff in Hw. destruct Hw as [Hw1 Hw2].
+    rewrite Hn1, Hw1. cbn [andb]. apply andb_true_iff. split.
+    + unfold variant_ok. apply forallb_and; [exact Hn2 | exact Hw3].
+    + destruct vs as [|v [|v2 vs]]; [discriminate | reflexivity |].
+      cbn [enum_shape_ok]. now apply existsb_false_forallb.
+Qed.
+
+Lemma wf_iface_ok t :
+  interface_wf t = true -> known_commented_enum t = false -> iface_ok t = true.
+Proof.
+  unfold interface_wf, names_ok, known_commented_enum, iface_ok. intros Hw Hk.
+  apply andb_true_iff in Hw. destruct Hw as [Hw He]. apply andb_true_iff in Hw. destruct Hw as [Hw Hm].
+  apply andb_true_iff in Hw. destruct Hw as [Hw Ht]. apply andb_true_iff in Hw. destruct Hw as [Hn Hc].
+  apply andb_true_iff in Hn. destruct Hn as [Hn Hne]. apply andb_true_iff in Hn. destruct Hn as [Hn Hnm].
+  apply andb_true_iff in Hn. destruct Hn as [Hni Hnt].
+  rewrite Hni, Hc. cbn [andb].
+  apply andb_true_iff. split; [apply andb_true_iff; split|].
+  - apply forallb_forall. intros c Hin. rewrite forallb_forall in Hnt, Ht.
+    apply wf_custom_ok; [now apply Hnt | now apply Ht|].
+    destruct (match c with CEnum _ ((_ :: _ :: _) as vs) _ => existsb has_comments vs | _ => false end) eqn:E;
+      [|reflexivity].
+    assert (Hex : existsb (fun c0 => match c0 with CEnum _ ((_ :: _ :: _) as vs) _ => existsb has_comments vs
+                                                | _ => false end) (itypes t) = true)
+      by (apply existsb_exists; exists c; auto).
+    congruence.
+  - apply forallb_forall. intros m Hin. rewrite forallb_forall in Hnm, Hm.
+    specialize (Hnm m Hin). specialize (Hm m Hin). unfold method_names_ok in Hnm. unfold method_ok.
+    apply andb_true_iff in Hnm. destruct Hnm as [Hnm Hn3]. apply andb_true_iff in Hnm. destruct Hnm as [Hn1 Hn2].
+    apply andb_true_iff in Hm. destruct Hm as [Hm Hm3]. apply andb_true_iff in Hm. destruct Hm as [Hm1 Hm2].
+    rewrite Hn1, Hm1. cbn [andb]. unfold dfield_ok. apply andb_true_iff. split; now apply forallb_and.
+  - apply forallb_forall. intros e Hin. rewrite forallb_forall in Hne, He.
+    specialize (Hne e Hin). specialize (He e Hin). unfold error_names_ok in Hne. unfold error_ok.
+    apply andb_true_iff in Hne. destruct Hne as [Hn1 Hn2]. apply andb_true_iff in He. destruct He as [He1 He2].
+    rewrite Hn1, He1. cbn [andb]. unfold dfield_ok. now apply forallb_and.
+Qed.
+
+Theorem parse_render_wf t :
+  interface_wf t = true -> known_commented_enum t = false -> parse_interface (render t) = Accept t.
+Proof. intros Hw Hk. apply parse_render. now apply wf_iface_ok. Qed.
+
+Theorem render_parse_render t t' :
+  interface_wf t = true -> known_commented_enum t = false ->
+  parse_interface (render t) = Accept t' -> t' = t /\ render t' = render t.
+Proof.
+  intros Hw Hk H. rewrite parse_render_wf in H by assumption. inversion H. subst. auto.
+Qed.
